@@ -1,7 +1,10 @@
 package checks
 
 import (
+	"bytes"
+	"context"
 	"fmt"
+	"reflect"
 	"testing"
 
 	astits "github.com/asticode/go-astits"
@@ -253,5 +256,113 @@ func TestC09Mux(t *testing.T) {
 		}
 		rec.ClassN("table_emissions", int64(emitted))
 		rec.Case(historySig(tr), maxDescs >= 2, func() interface{} { return tr.render() })
+	})
+}
+
+// oddCodes gives every language / country code field reachable from v (a []byte that the writer emits as exactly three
+// bytes) a length of 0..6.
+func oddCodes(t *rapid.T, v reflect.Value, n *int) {
+	switch v.Kind() {
+	case reflect.Ptr, reflect.Interface:
+		if !v.IsNil() {
+			oddCodes(t, v.Elem(), n)
+		}
+	case reflect.Slice:
+		if v.Type().Elem().Kind() == reflect.Uint8 {
+			return
+		}
+		for i := 0; i < v.Len(); i++ {
+			oddCodes(t, v.Index(i), n)
+		}
+	case reflect.Struct:
+		for i := 0; i < v.NumField(); i++ {
+			f, name := v.Field(i), v.Type().Field(i).Name
+			if f.Kind() == reflect.Slice && f.Type().Elem().Kind() == reflect.Uint8 && (name == "Language" || name == "LanguageCode" || name == "ISO639LanguageCode" || name == "CountryCode") && f.CanSet() {
+				l := rapid.IntRange(0, 6).Draw(t, "codelen")
+				f.SetBytes(gen.Bytes(t, l, "code"))
+				if l != 3 {
+					*n++
+				}
+				continue
+			}
+			oddCodes(t, f, n)
+		}
+	}
+}
+
+// TestC09OddCodes: language and country codes are written as exactly three bytes whatever the length of the slice in the
+// struct; the lengths announced around them must follow what is written.
+func TestC09OddCodes(t *testing.T) {
+	rec := obs.NewRecorder("C09", "odd_codes", "rapid: 1..3 streams whose ES descriptors (all typed tags) have their language / country code slices resized to 0..6 bytes (the writer emits three bytes for each); after a successful WriteTables every PAT/PMT packet must hold a section whose section_length is followed by exactly that many bytes, whose CRC_32 verifies bitwise and which is followed by 0xFF only, and the ES_info loops of the PMT must walk descriptor by descriptor to the handed tags; non-trivial = at least one code not 3 bytes long; distinct by PMT bytes")
+	defer rec.Flush()
+	rapid.Check(t, func(t *rapid.T) {
+		var buf cappedBuffer
+		m := astits.NewMuxer(context.Background(), &buf)
+		n := rapid.IntRange(1, 3).Draw(t, "streams")
+		odd := 0
+		var tags [][]uint8
+		for i := 0; i < n; i++ {
+			var ds []*astits.Descriptor
+			for k := rapid.IntRange(1, 3).Draw(t, "ndesc"); k > 0; k-- {
+				tag := gen.TypedTags[gen.Uniform(t, len(gen.TypedTags), "tag")]
+				if d := gen.DescriptorOfTag(t, tag, 24, "d"); d != nil {
+					ds = append(ds, d)
+				}
+			}
+			oddCodes(t, reflect.ValueOf(ds), &odd)
+			var tg []uint8
+			for _, d := range ds {
+				tg = append(tg, d.Tag)
+			}
+			tags = append(tags, tg)
+			if err := m.AddElementaryStream(astits.PMTElementaryStream{ElementaryPID: uint16(0x100 + i), StreamType: astits.StreamTypeMPEG2Audio, ElementaryStreamDescriptors: ds}); err != nil {
+				t.Fatal(err)
+			}
+		}
+		m.SetPCRPID(0x100)
+		if _, err := m.WriteTables(); err != nil {
+			rec.Excluded("pmt_does_not_fit_one_packet")
+			return
+		}
+		raw, ok := ref.SplitPackets(buf.Bytes())
+		if !ok || len(raw) != 2 {
+			t.Fatalf("WriteTables wrote %d bytes, want two packets", buf.Len())
+		}
+		var pmt []byte
+		for i, r := range raw {
+			p, err := ref.DecodeTS(r)
+			if err != nil {
+				t.Fatalf("table packet %d does not decode: %v", i, err)
+			}
+			sec, err := ref.TablePacketSection(p.Payload)
+			if err != nil {
+				t.Fatalf("table packet %d on PID %#x: %v\npayload %x", i, p.PID, err, p.Payload)
+			}
+			if p.PID != 0 {
+				pmt = sec
+			}
+		}
+		_, _, es, ok := ref.DecodePMT(pmt)
+		if !ok || len(es) != n {
+			t.Fatalf("the PMT does not walk to its %d streams (ok=%v, %d found): %x", n, ok, len(es), pmt)
+		}
+		for i, e := range es {
+			var got []uint8
+			for pos := 0; pos < len(e.Desc); {
+				if pos+2 > len(e.Desc) || pos+2+int(e.Desc[pos+1]) > len(e.Desc) {
+					t.Fatalf("stream %d: descriptor at %d of the ES_info loop crosses its end: %x", i, pos, e.Desc)
+				}
+				got = append(got, e.Desc[pos])
+				pos += 2 + int(e.Desc[pos+1])
+			}
+			if !bytes.Equal(got, tags[i]) {
+				t.Fatalf("stream %d: ES_info loop walks to tags %x, handed %x: %x", i, got, tags[i], e.Desc)
+			}
+		}
+		h := obs.NewHasher()
+		h.Bytes(pmt)
+		rec.Case(h.Sum(), odd > 0, func() interface{} {
+			return map[string]interface{}{"pmt_section": hexHead(pmt, 96), "codes_not_3_bytes": odd}
+		})
 	})
 }
